@@ -43,18 +43,34 @@ def run(tier, seed):
                 kinds.setdefault((pos, h[0], h[1]), b)
         two = list({json.dumps(b["hist"]): b for b in list(kinds.values()) + rng.sample(two, 25)}.values())
     scen = two + five
+    # quiet periods during which the peer keeps ticking: every 12 s (OTP's default interval is 15 s) and, in the thorough tier, every 4 s.
+    # They take real time, so they run in a second runner process (own node, own ports) next to the other scenarios.
+    base = {"alive": True, "registered": True, "delivered": {"P1": [[2, "send_pid"]], "P2": []}, "callGot": 0, "live": ["P1", "P2"]}
+    idle = [{**base, "hist": [["ticks", "12000x1"], ["send_pid", "P1"]], "idle": "12s"}]
     if thorough:
-        # quiet periods during which the peer keeps ticking: every 4 s, and every 12 s (OTP's default interval is 15 s)
-        base = {"alive": True, "registered": True, "delivered": {"P1": [[2, "send_pid"]], "P2": []}, "callGot": 0, "live": ["P1", "P2"]}
-        scen.append({**base, "hist": [["ticks", "4000x3"], ["send_pid", "P1"]], "idle": "4s"})
-        scen.append({**base, "hist": [["ticks", "12000x1"], ["send_pid", "P1"]], "idle": "12s"})
-    for i, s in enumerate(scen):
+        idle.append({**base, "hist": [["ticks", "4000x3"], ["send_pid", "P1"]], "idle": "4s"})
+    for i, s in enumerate(scen + idle):
         s["id"] = i
     sp = os.path.join(lib.outdir(PID), "scenarios.ndjson")
     op = os.path.join(lib.outdir(PID), "obs.ndjson")
+    sp2 = os.path.join(lib.outdir(PID), "scenarios_idle.ndjson")
+    op2 = os.path.join(lib.outdir(PID), "obs_idle.ndjson")
     lib.write_ndjson(sp, scen)
-    lib.harness(["inbound-run", sp, op], timeout=3000)
-    obs = lib.read_ndjson(op)
+    lib.write_ndjson(sp2, idle)
+    import subprocess
+    exe = lib.build_harness()
+    side = subprocess.Popen([exe, "inbound-run", sp2, op2], cwd=lib.ROOT, stdout=subprocess.DEVNULL, stderr=subprocess.DEVNULL)
+    try:
+        lib.harness(["inbound-run", sp, op], timeout=3000)
+        try:
+            side.wait(timeout=300)
+        except subprocess.TimeoutExpired:
+            raise lib.ToolError("the runner of the quiet-period scenarios did not finish")
+    finally:
+        if side.poll() is None:
+            side.kill()
+    obs = lib.read_ndjson(op) + lib.read_ndjson(op2)
+    scen = scen + idle
     if len(obs) != len(scen):
         raise lib.ToolError("scenario runner returned too few observations")
     for o in obs:
